@@ -127,6 +127,28 @@ def describe_direct(s):
             "common": [t.name for t in m.common_terms], "group": [t.name for t in m.group_terms]}
 
 
+def strip_groups(sexp):
+    """the structural rendering with every `(group X)` replaced by `X`"""
+    out, i = [], 0
+    closers = []            # for every open paren: does its closing paren get dropped?
+    while i < len(sexp):
+        if sexp.startswith("(group ", i):
+            closers.append(True)
+            i += len("(group ")
+        elif sexp[i] == "(":
+            closers.append(False)
+            out.append("(")
+            i += 1
+        elif sexp[i] == ")":
+            if not closers.pop():
+                out.append(")")
+            i += 1
+        else:
+            out.append(sexp[i])
+            i += 1
+    return "".join(out)
+
+
 def lookalikes(s, rng):
     """strings that differ from `s` only in whitespace but are other token streams (a blank inside
     a name, a number, `**`, a comparison, a back-quoted name) or the same one (all gaps removed)"""
@@ -490,6 +512,29 @@ def explore(tier, seed, res=None, replay=None):
                     res.failures.append({"case": {"s": base, "variant": v, "kind": "relation"},
                                          "impl": d1, "expected": d0,
                                          "why": "whitespace / redundant parentheses changed the model"})
+        # two call terms whose arguments are different readings (they differ by parentheses that
+        # matter) are two terms: nothing of what was written is silently dropped
+        pops = ["+", "-", "*", "/", "**", "<", "=="]
+        for o1 in pops:
+            for o2 in pops:
+                flat = f"a {o1} b {o2} c"
+                for grouped in (f"(a {o1} b) {o2} c", f"a {o1} (b {o2} c)"):
+                    t1, t2 = impl(f"I({grouped})", False), impl(f"I({flat})", False)
+                    if t1.get("ast") is None or t2.get("ast") is None:
+                        continue
+                    if strip_groups(t1["ast"]) == strip_groups(t2["ast"]):
+                        continue                      # the parentheses were redundant
+                    res.evaluations += 1
+                    res.count("kind:distinct-readings")
+                    for head in ("y ~ ", "y ~ 0 + "):
+                        f2 = f"{head}I({grouped}) + I({flat})"
+                        d = describe(f2)
+                        n_calls = len([t for t in d.get("common", []) if t != "Intercept"])
+                        if "err" in d or n_calls != 2:
+                            res.failures.append({"case": {"s": f2, "kind": "distinct-readings"},
+                                                 "impl": d, "expected": "two call terms",
+                                                 "why": "two call terms with different readings of "
+                                                        "their arguments are not both kept"})
         # history: the public entry point reads every string from its own characters — a well-formed
         # formula first, then look-alikes that differ from it by whitespace only, then it again
         n_hist = 150 if tier == "quick" else 3000
